@@ -70,6 +70,7 @@ class Ctx:
 
 
 def setup():
+    angles.RANGES = True
     c = Ctx()
     c.mod = harness_module('h_thdm_me')
     c.dem = demangled(c.mod)
